@@ -284,6 +284,20 @@ end
 
 /-! ### statements -/
 
+/-- what `expect_end_of_input` skips after the value of `gin.config.parse_value` -/
+def endSkippable (t : Token) : Bool :=
+  t.kind == .newline || t.kind == .nl || t.kind == .comment || t.kind == .indent || t.kind == .dedent
+
+/-- `gin.config.parse_value(text)`: one value, then nothing but blank lines and comments -/
+def parseSingleValue (n : Nat) (ts : List Token) : P PVal :=
+  match parseValue false n ts with
+  | .error e => .error e
+  | .ok (v, rest) =>
+    match skipWhile endSkippable rest.length rest with
+    | .error e => .error e
+    | .ok rest' =>
+      if (cur rest').kind == .endmarker then .ok v else .error (.syntax "Expected end of input.")
+
 inductive PStmt where
   | binding (scope selector arg : String) (v : PVal) (line : Nat)
   | block (scope selector : String) (line : Nat)
